@@ -17,7 +17,16 @@ Decl == "define\n    x as Real(0, 5)\n    p as Boolean\n    x_i as Boolean for i
 \* row context: node u, edge e and enumerate-tuple t are in scope of every row template
 RowCtx == " for u in nodes(G), e in edges(G), t in enumerate(A1)"
 
-T(where, pre, post) == [where |-> where, pre |-> pre, post |-> post]
+T(where, pre, post) == [where |-> where, pre |-> pre, post |-> post, op |-> ""]
+\* an operator between TWO chosen operands, at a position the transformer evaluates (a let constant,
+\* an array index, a range bound) or only translates (a row body)
+T2(where, pre, op, post) == [where |-> where, pre |-> pre, post |-> post, op |-> op]
+BinOps == {" + ", " - ", " * ", " / ", " and ", " or ", " xor ", " implies ", " iff "}
+OpTemplates == {T2("let", "    let k = ", o, "\n") : o \in BinOps}
+               \cup {T2("row", "A1[", o, "] * x <= 9") : o \in BinOps}
+               \cup {T2("row", "sum(i in 0..(", o, ")) { x_i } <= 2") : o \in BinOps}
+               \cup {T2("row", "(", o, ") + x <= 2") : o \in BinOps}
+OpFillers == {"2", "-1", "1.5", "0", "true", "B1", "\"s\"", "S1", "A1", "G", "M2[0]", "x", "p"}
 RowTemplates == {
    T("row", "x + ", " <= 3"), T("row", "", " * x <= 3"), T("row", "x <= ", ""), T("row", "x / ", " <= 3"), T("row", "x - (", " + 1) >= 0"),
    T("row", "x_{", "} <= 1"), T("row", "x_{0 + ", "} <= 1"),
@@ -31,28 +40,30 @@ RowTemplates == {
    T("row", "(", " - 1) * x <= 4") }
 RowTemplatesOk == RowTemplates
 LetTemplates == { T("let", "    let k = ", " + 1\n"), T("let", "    let k = A1[", "]\n"), T("let", "    let k = len(", ")\n"),
-                  T("let", "    let k = 10 / ", "\n"), T("let", "    let k = -", "\n"), T("let", "    let k = ", " * 9223372036854775807\n") }
+                  T("let", "    let k = 10 / ", "\n"), T("let", "    let k = -", "\n"), T("let", "    let k = not ", "\n"), T("let", "    let k = ", " * 9223372036854775807\n") }
 DeclTemplates == { T("decl", "\n    w as IntegerRange(", ", 3)"), T("decl", "\n    w as Real(0, ", ")"), T("decl", "\n    w as NonNegativeReal(", ", 9)"),
                    T("decl", "\n    w_i as Boolean for i in ", ""), T("decl", "\n    w_i as Boolean for i in 0..", ""), T("decl", "\n    x as ", "") }
-Templates == RowTemplatesOk \cup LetTemplates \cup DeclTemplates
+Templates == RowTemplatesOk \cup LetTemplates \cup DeclTemplates \cup OpTemplates
 
 GlobalFillers == {"2", "-1", "1.5", "0", "7", "true", "\"s\"", "S1", "B1", "A1", "[1, 2]", "E0", "M2", "M2[0]", "G", "x", "p", "zz", "len(A1)", "A1[0]", "nodes(G)", "edges(G)"}
 RowFillers == GlobalFillers \cup {"u", "e", "t", "i"}
 FillersFor(t) == IF t.where = "row" THEN RowFillers ELSE GlobalFillers
 
-VARIABLES tpl, fill, phase
-vars == <<tpl, fill, phase>>
-Init == tpl = T("row", "", "") /\ fill = "" /\ phase = "tpl"
-PickTemplate == phase = "tpl" /\ (\E t \in Templates : tpl' = t) /\ phase' = "fill" /\ UNCHANGED fill
-PickFiller == phase = "fill" /\ (\E f \in FillersFor(tpl) : fill' = f) /\ phase' = "done" /\ UNCHANGED tpl
-Next == PickTemplate \/ PickFiller
+VARIABLES tpl, fill, fill2, phase
+vars == <<tpl, fill, fill2, phase>>
+Init == tpl = T("row", "", "") /\ fill = "" /\ fill2 = "" /\ phase = "tpl"
+PickTemplate == phase = "tpl" /\ (\E t \in Templates : tpl' = t) /\ phase' = "fill" /\ UNCHANGED <<fill, fill2>>
+PickFiller == phase = "fill" /\ tpl.op = "" /\ (\E f \in FillersFor(tpl) : fill' = f) /\ phase' = "done" /\ UNCHANGED <<tpl, fill2>>
+PickOperands == phase = "fill" /\ tpl.op # "" /\ (\E f \in OpFillers, g \in OpFillers : fill' = f /\ fill2' = g) /\ phase' = "done" /\ UNCHANGED tpl
+Next == PickTemplate \/ PickFiller \/ PickOperands
+Filled == IF tpl.op = "" THEN fill ELSE fill \o tpl.op \o fill2
 Spec == Init /\ [][Next]_vars
 
-Text == CASE tpl.where = "row" -> Header \o "    " \o tpl.pre \o fill \o tpl.post \o RowCtx \o "\n" \o Data \o Decl
-          [] tpl.where = "let" -> Header \o "    k * x <= 9\n" \o Data \o tpl.pre \o fill \o tpl.post \o Decl
-          [] tpl.where = "decl" -> Header \o "    x <= 9\n" \o Data \o Decl \o tpl.pre \o fill \o tpl.post
+Text == CASE tpl.where = "row" -> Header \o "    " \o tpl.pre \o Filled \o tpl.post \o RowCtx \o "\n" \o Data \o Decl
+          [] tpl.where = "let" -> Header \o "    k * x <= 9\n" \o Data \o tpl.pre \o Filled \o tpl.post \o Decl
+          [] tpl.where = "decl" -> Header \o "    x <= 9\n" \o Data \o Decl \o tpl.pre \o Filled \o tpl.post
 \* what the skeleton declares: decision variables and indexed families (the trace specification
 \* needs them to tell a missing member of a declared family from an undeclared name)
-Emit == phase = "done" => PrintT(<<"CASE", ToJson([text |-> Text, pos |-> tpl.pre \o "@" \o tpl.post, where |-> tpl.where, filler |-> fill,
+Emit == phase = "done" => PrintT(<<"CASE", ToJson([text |-> Text, pos |-> tpl.pre \o "@" \o tpl.post, where |-> tpl.where, filler |-> Filled,
                                                     decision |-> <<"x", "p", "w">>, families |-> <<"x_", "z_", "w_">>])>>)
 =============================================================================
